@@ -165,7 +165,8 @@ void genHostile(Prng& r, Plan& p, int tier)
 			pw *= 6;
 		}
 		uint64_t count = tier ? 4000 : 1500;
-		uint64_t first = r.below(3) == 0 ? 0 : r.next() % total;
+		// consecutive blocks of the enumeration: block b = run index, so the blocks tile the whole space many times over
+		uint64_t first = (genRunIndex() % 100000) * count % total;
 		p.ops.push_back(op("enum", {(int64_t)first, (int64_t)count, L}));
 	}
 	else
